@@ -99,6 +99,28 @@ CHECKS = {
             "missing key/index tails of length 1-3 below every container or "
             "null of every document <= 3 nodes must add exactly the tail.",
             TRUST, "6/C09"),
+    "C10": (True, "exploration",
+            "exhaustive enumeration of an anchored-document family x anchor "
+            "policies against an alias-cell model; dump/reload round-trip",
+            "All pairs of left/right documents defining and aliasing scalar "
+            "anchors from the pool {x, y, x_1} (aliases under keys and in "
+            "sequences, optional second anchors so rename targets collide, "
+            "falsy values) x stop/left/right/rename: acceptance, the value "
+            "every alias position reads, rename consistency/uniqueness, and "
+            "a strict dump/reload of the result.",
+            TRUST, "6/C10"),
+    "C11": (True, "exploration",
+            "exhaustive small-scope enumeration of (document, merge path, "
+            "right document, policy) against the C05 model plus a frame "
+            "pattern for everything outside the targets",
+            "Every existing-node path, several multi-match paths, creatable "
+            "missing tails and unmatchable searches on ~1100 left documents "
+            "x 8 right documents of every root kind x rotating policies: "
+            "each target must be the policy merge of its old content, the "
+            "complement must be untouched, unmatched paths must raise "
+            "MergeException.",
+            TRUST + "Targets are decided by the C01 reference evaluator.",
+            "6/C11"),
     "C12": (True, "exploration",
             "complete finite grid + Hypothesis generation against a "
             "reference comparison table; metamorphic inversion-complement "
